@@ -1,13 +1,16 @@
 package server
 
 import (
+	"context"
 	"crypto/tls"
 	"html/template"
 	"io"
 	"io/fs"
+	"log/slog"
 	"net/http"
 	"net/url"
 
+	"github.com/google/uuid"
 	"golang.org/x/crypto/acme/autocert"
 )
 
@@ -171,3 +174,73 @@ func vBalancer(names ...string) *LoadBalancer {
 	lb.updateHealthyTargets()
 	return lb
 }
+
+// --- log/slog attribute constructors and the access-log sink ---
+// slog.Value is built with unsafe tricks; the constructors are replaced by recorders: attributes are collected
+// in construction order and committed as one record by LogAttrs.
+
+type vAttr struct {
+	key string
+	str string
+	num int64
+	isN bool
+}
+
+var vPendingAttrs []vAttr
+var vLogRecords [][]vAttr
+var vLogMsgs []string
+
+//verif:stub log/slog.String
+func stubSlogString(key, value string) slog.Attr {
+	vPendingAttrs = append(vPendingAttrs, vAttr{key: key, str: value})
+	return slog.Attr{Key: key}
+}
+
+//verif:stub log/slog.Int
+func stubSlogInt(key string, value int) slog.Attr {
+	vPendingAttrs = append(vPendingAttrs, vAttr{key: key, num: int64(value), isN: true})
+	return slog.Attr{Key: key}
+}
+
+//verif:stub log/slog.Int64
+func stubSlogInt64(key string, value int64) slog.Attr {
+	vPendingAttrs = append(vPendingAttrs, vAttr{key: key, num: value, isN: true})
+	return slog.Attr{Key: key}
+}
+
+//verif:stub (*log/slog.Logger).LogAttrs
+func stubLogAttrs(l *slog.Logger, ctx context.Context, level slog.Level, msg string, attrs ...slog.Attr) {
+	rec := []vAttr{}
+	for _, a := range attrs {
+		// match constructed attributes by key, in order
+		for i, p := range vPendingAttrs {
+			if p.key == a.Key {
+				rec = append(rec, p)
+				vPendingAttrs = append(vPendingAttrs[:i:i], vPendingAttrs[i+1:]...)
+				break
+			}
+		}
+	}
+	vPendingAttrs = nil
+	vLogRecords = append(vLogRecords, rec)
+	vLogMsgs = append(vLogMsgs, msg)
+}
+
+func vLogField(rec []vAttr, key string) (vAttr, bool) {
+	for _, a := range rec {
+		if a.key == key {
+			return a, true
+		}
+	}
+	return vAttr{}, false
+}
+
+// --- uuid ---
+
+var vUUIDs int
+
+//verif:stub github.com/google/uuid.New
+func stubUUIDNew() uuid.UUID { vUUIDs++; return uuid.UUID{byte(vUUIDs)} }
+
+//verif:stub (github.com/google/uuid.UUID).String
+func stubUUIDString(u uuid.UUID) string { return "generated-id-" + vItoa(int(u[0])) }
